@@ -16,7 +16,8 @@
    load() replaces the object's state by the freshly read one (:659-662).
 
    Named deviations (each must make TLC fail): FLOOR_SETTER_NO_RECLAMP,
-   VAR_SETTER_KEEPS_NORMALISER, WEIGHT_SETTER_KEEPS_LOGW, LOAD_KEEPS_CACHES.            *)
+   VAR_SETTER_KEEPS_NORMALISER, WEIGHT_SETTER_KEEPS_LOGW, LOAD_KEEPS_CACHES,
+   FLOOR_LATE_BOUND_TO_COUNT_THRESHOLD.            *)
 EXTENDS Rat, TLC, Json
 
 CONSTANTS C, D,
@@ -81,12 +82,20 @@ OpMStep == \E uw, um, uv \in BOOLEAN, tw \in WeightSet, tm \in MeanSet, tv \in V
               /\ (uw \/ um \/ uv)
               /\ Become(MStepOn(Cur, uw, um, uv, tw, tm, tv),
                         [name |-> "MStep", kind |-> kind, uw |-> uw, um |-> um, uv |-> uv, w |-> tw, mu |-> tm, var |-> tv])
+\* mean_var_update_threshold (the count floor of the M-steps) seeds the variance floors at construction only;
+\* changing it later (attribute assignment, set_params) leaves floors, variances and caches alone
+\* (deviation FLOOR_LATE_BOUND_TO_COUNT_THRESHOLD: the visible floor follows it without any re-clamp)
+OpSetCountThr == \E x \in {"small", "large"} :
+    LET s == IF "FLOOR_LATE_BOUND_TO_COUNT_THRESHOLD" \in Dev /\ fl = EpsFloor /\ x = "large"
+             THEN [Cur EXCEPT !.fl = CHOOSE f \in FloorSet : f.kind = "scalar" /\ \A g \in FloorSet : g.kind = "scalar" => GeqM(f.val, g.val)]
+             ELSE Cur
+    IN Become(s, [name |-> "SetCountThr", x |-> x])
 OpCopy == Become(Cur, [name |-> "Copy"])
 OpPickle == Become(Cur, [name |-> "Pickle"])
 OpSaveLoad == Become(ReadBack(Cur), [name |-> "SaveLoad"])
 OpLoadInto == Become(LoadInto(Cur), [name |-> "LoadInto"])
 
-Next == OpSetW \/ OpSetM \/ OpSetV \/ OpSetF \/ OpMStep \/ OpCopy \/ OpPickle \/ OpSaveLoad \/ OpLoadInto
+Next == OpSetW \/ OpSetM \/ OpSetV \/ OpSetF \/ OpMStep \/ OpSetCountThr \/ OpCopy \/ OpPickle \/ OpSaveLoad \/ OpLoadInto
 Spec == Init /\ [][Next]_vars
 
 \* ---------------- properties (C17)
